@@ -81,26 +81,23 @@ def run(ck):
 
     # 4. folding consistency
     m = [g for g in by_err(gs, "InvalidLayerFolding")
-         if match_cmp(g, ("!=",), anything, all_of(has_callee("get_query_values"), has_callee("read_layer_queries")))]
+         if match_cmp(g, ("!=",), anything, all_of(has_callee("read_layer_queries"), V.has_param("positions")))]
     require(ck, "G", "InvalidLayerFolding", m,
             "per layer: reject iff the carried evaluations differ from the values opened at the queried positions",
             strength=("per-iteration", "always"))
     # the carried evaluations are recomputed from the opened rows and the stored alpha
     for g in m[:1]:
-        for op, l, r in V.cmp_sides(g):
-            lw = V.side_walk(g, l)
-            if has_callee("get_query_values")(g, lw):
-                continue
-            ns = V.names(g, lw)
-            flds = V.fields(g, lw)
-            ck.ob("G.flow", "evaluations<-interpolate(rows)@alpha",
-                  any(n.endswith("polynom::interpolate_batch") for n in ns) and
-                  any(a.endswith("FriVerifier") and f == "layer_alphas" for a, f in flds) and
-                  any(n.endswith("read_layer_queries") for n in ns),
-                  "the evaluations compared at the next layer are the opened rows interpolated and evaluated at the stored alpha",
-                  loc=g.loc())
-            ck.ob("G.flow", "evaluations<-param", has_param("evaluations")(g, lw),
-                  "the first layer compares the evaluations handed in by the caller", loc=g.loc())
+        sides = [V.side_walk(g, l) for op, l, r in V.cmp_sides(g)]
+        # the carried side is whichever is not just the values opened at this layer (it goes back to the caller's evaluations)
+        carried = [lw for lw in sides if has_param("evaluations")(g, lw)] or sides
+        ck.ob("G.flow", "evaluations<-interpolate(rows)@alpha",
+              any(any(n.endswith("polynom::interpolate_batch") for n in V.names(g, lw)) and
+                  any(a.endswith("FriVerifier") and f == "layer_alphas" for a, f in V.fields(g, lw)) and
+                  any(n.endswith("read_layer_queries") for n in V.names(g, lw)) for lw in carried),
+              "the evaluations compared at the next layer are the opened rows interpolated and evaluated at the stored alpha",
+              loc=g.loc())
+        ck.ob("G.flow", "evaluations<-param", any(has_param("evaluations")(g, lw) for lw in sides),
+              "the first layer compares the evaluations handed in by the caller", loc=g.loc())
 
     # 5. remainder size
     m = [g for g in by_err(gs, "RemainderDegreeMismatch")
